@@ -518,3 +518,65 @@ func RIgnParen(c *core.Ctx) {
 		c.Anchor("successful returns of scanGroupOpen")
 	}
 }
+
+// ---------------------------------------------------------------------------
+// R-DIGITACC: decimal accumulation is guarded against overflow and emptiness.
+// A loop of the form `n = n*10 + digit` over caller-supplied text wraps around
+// for long digit strings and yields 0 for the empty string.  When the result
+// is then looked up as a group number, "18446744073709551617" and "" name
+// groups 1 and 0.  The parser's own scanners compare the accumulator with
+// max/10 before multiplying; every such loop has to.
+// ---------------------------------------------------------------------------
+
+func RDigitAcc(c *core.Ctx) {
+	c.Rule("R-DIGITACC", "every loop of the module that accumulates a decimal number (`n = n*10 + d` / `n *= 10`) compares the accumulator with a constant inside the loop before the multiplication can overflow (the max/10 idiom of scanDecimal)", 3)
+	p := c.P
+	n := 0
+	for _, fn := range p.ModuleFuncs() {
+		name := core.SSAName(fn)
+		cnt := 0
+		for _, b := range fn.Blocks {
+			for _, ins := range b.Instrs {
+				mul, ok := ins.(*ssa.BinOp)
+				if !ok || mul.Op != token.MUL {
+					continue
+				}
+				k, isC := core.IntConst(mul.Y)
+				if !isC || k != 10 {
+					continue
+				}
+				phi, ok := mul.X.(*ssa.Phi)
+				if !ok || !onCycle(b) {
+					continue
+				}
+				cnt++
+				n++
+				c.Visit(name)
+				guarded := false
+				for _, r := range core.Referrers(phi) {
+					if bin, ok := r.(*ssa.BinOp); ok && onCycle(bin.Block()) {
+						switch bin.Op {
+						case token.GTR, token.GEQ, token.LSS, token.LEQ, token.EQL:
+							if _, isC := core.IntConst(bin.Y); isC {
+								guarded = true
+							}
+							if _, isC := core.IntConst(bin.X); isC {
+								guarded = true
+							}
+							if g, ok := bin.Y.(*ssa.UnOp); ok {
+								if _, isG := g.X.(*ssa.Global); isG {
+									guarded = true
+								}
+							}
+						}
+					}
+				}
+				c.Check(guarded, fmt.Sprintf("%s / decimal accumulation #%d is guarded against overflow", name, cnt), mul.Pos(),
+					"the accumulator is multiplied by 10 on every digit without ever being compared with a bound: a long digit string wraps around (\"18446744073709551617\" parses as 1) and the result is then used as a group number")
+			}
+		}
+	}
+	if n == 0 {
+		c.Anchor("decimal accumulation loops")
+	}
+}
